@@ -99,13 +99,15 @@ def state_case(draw, poisson=False):
     if engine == "euler" and mode in ("redist", "Poisson"):
         out_q = "molecule"   # the deterministic engine works in the script's units: integers only mean molecules there
     return {"sys": spec, "engine": engine, "mode": mode, "seed": draw(st.integers(0, 2 ** 32 - 1)), "out_q": out_q,
-            "regime": "poisson" if poisson else regime}
+            "regime": "poisson" if poisson else regime,
+            # how the script comes to be: constructor (mode spelled out / left to the default) or dictionary reader (ditto)
+            "script_route": draw(st.sampled_from(["ctor", "ctor-default", "dict", "dict-default"]))}
 
 
 def script_of(c, seed=None):
     return {"sys": c["sys"], "route": "ctor", "units": {"space": "µm", "time": "s", "quantity": c["out_q"]},
             "t_sample": [0, 1.0], "time_step": 1e-3, "policy": "on_t_sample", "seed": c["seed"] if seed is None else seed,
-            "mode": c["mode"]}
+            "mode": c["mode"], "script_route": c.get("script_route", "ctor")}
 
 
 def engine_input(c):
@@ -140,7 +142,7 @@ def run_job(job, what):
 
 
 def classes_of(c, vals_exact, ns, n):
-    cl = ["engine:" + c["engine"], "mode:" + c["mode"], "regime:" + c["regime"], "space:" + c["sys"]["space"]["type"]]
+    cl = ["engine:" + c["engine"], "mode:" + c["mode"], "regime:" + c["regime"], "space:" + c["sys"]["space"]["type"], "script:" + c.get("script_route", "ctor")]
     for s in range(ns):
         T = sum(vals_exact[s * n:(s + 1) * n])
         if 0 < T < 1:
@@ -212,6 +214,47 @@ def check_state(ctx, c):
 
 # ---- Poisson mode statistics -----------------------------------------------------------------------------
 
+@st.composite
+def large_case(draw):
+    """Poisson mode above the Poisson/normal switch of the redistribution code (100 molecules): many entries with means in
+    100..160, so that the POOLED sample mean over all entries and seeds resolves a bias of a fraction of a molecule."""
+    c = draw(state_case(True))
+    sp = c["sys"]["space"]
+    n = gen.space_size(sp)
+    ns = len(c["sys"]["species"])
+    vals = [gen.fs(F(100) + F(draw(st.integers(0, 480)), 8) + F(k, 1024)) for k in range(ns * n)]
+    c["sys"] = dict(c["sys"], state={"values": vals, "units": c["sys"]["state"]["units"]})
+    return c
+
+
+def strat_poisson_large(ctx):
+    return st.fixed_dictionaries({"case": large_case().filter(lambda c: len(c["sys"]["state"]["values"]) >= 8), "seed0": st.integers(0, 2 ** 31)})
+
+
+def check_poisson_large(ctx, cc):
+    c = cc["case"]
+    K = len(c["sys"]["state"]["values"])
+    N = max(200, (60000 if ctx.tier == "quick" else 400000) // K)
+    given, _ = engine_input(c)
+    means = [float(v) if c["engine"] != "euler" else float(v) * float(si.QUANTITY[c["out_q"]]) for v in given]
+    ctx.note(cc, True, ["poisson-large", "engine:" + c["engine"], "space:" + c["sys"]["space"]["type"]])
+    seeds = [(cc["seed0"] + 7919 * k) % (2 ** 32) for k in range(N)]
+    job = {"scripts": [script_of(c)], "calls": [["new", "E", c["engine"]], ["sample0", "E", 0, seeds]]}
+    res = run_job(job, "Poisson-mode set-up of %s (%d seeds)" % (c["engine"], N))
+    scale = float(si.QUANTITY[c["out_q"]])
+    tot = 0.0
+    for smp in res[1]["r"]:
+        for t in range(K):
+            tot += round(smp[t] * scale)
+    want = N * sum(means)
+    z = (tot - want) / math.sqrt(want)
+    ctx.count("poisson-large:draws", N * K)
+    if abs(z) > 7:
+        raise Violation("Poisson mode (%s, %s), %d entries with real amounts in 100..160, %d seeds: the pooled sample mean is off by %.3f molecule per "
+                        "entry (z = %.1f): entries are not drawn with the real-valued amount as mean" % (
+                            c["engine"], c["sys"]["space"]["type"], K, N, (tot - want) / (N * K), z), key="poisson:mean-large")
+
+
 def strat_poisson(ctx):
     return st.fixed_dictionaries({"case": state_case(True), "seed0": st.integers(0, 2 ** 31)})
 
@@ -281,4 +324,5 @@ def check_poisson(ctx, cc):
 FACETS = [
     Facet("state", check_state, strategy=strat_state, examples=(1600, 40000), shards=(16, 16), setup=setup, native=True, shrink=True),
     Facet("poisson", check_poisson, strategy=strat_poisson, examples=(96, 1500), shards=(8, 16), setup=setup, native=True),
+    Facet("poisson_large", check_poisson_large, strategy=strat_poisson_large, examples=(16, 96), shards=(8, 16), setup=setup, native=True, shrink=False),
 ]
